@@ -204,6 +204,7 @@ func c18Eval(c c18Case) (ok bool, sig, detail string) {
 		if !judged {
 			return true, "", ""
 		}
+		engine.Outcome("m" + fmt.Sprint(segsOf(got)))
 		if fmt.Sprint(segsOf(got)) != fmt.Sprint(want) {
 			sg := "match"
 			// known: row k is [gtuy] instead of [gtuk]
